@@ -75,7 +75,11 @@ func TestVfLoop(t *testing.T) {
 			sh := bh.Shape[h.T]
 			switch h.Op {
 			case "req":
-				top := fmt.Sprintf("SIP/2.0/UDP %s", sentHost[sh.SentBy.Host])
+				sby := sentHost[sh.SentBy.Host]
+				if sh.SentBy.Host == "self" { // the UA's true address as a literal; the announced port still differs from the source port
+					sby = uaIP[sh.Src.Ip]
+				}
+				top := fmt.Sprintf("SIP/2.0/UDP %s", sby)
 				if sh.SentBy.Port != 0 {
 					top += fmt.Sprintf(":%d", sh.SentBy.Port)
 				}
